@@ -4,7 +4,7 @@ SPEC = {
     "targets": ["Properties/C19.vo", "Run/C19.vo"],
     "theorems": {"Properties.C19": [
         "C19_relaxed_eq_strict_partial", "C19_strict_valid_single_doc",
-        "C19_relaxed_eq_strict_refuted_tag_kind", "C19_seq_tag_on_mapping_now_rejected", "C19_alias_key_now_rejected",
+        "C19_null_tag_on_mapping_now_rejected", "C19_seq_tag_on_mapping_now_rejected", "C19_alias_key_now_rejected",
         "C19_relaxed_total", "C19_wrapper_invariance", "C19_wrapper_invariance_file",
         "C19_seq_parent_irrelevant", "C19_nonvacuous", "C19_nonvacuous_embedded"]},
     "harness_args": lambda tier: ["C19", "--n", 500 if tier == "quick" else 12000],
@@ -20,7 +20,7 @@ SPEC = {
         "external library behaviour enters the theorems as Section variables with NO assumed behaviour: NewPositionRange(...).Lines() "
         "(plines), IsValidMetricName, LabelName.IsValid, LabelValue.IsValid, ParseDuration; in the correspondence runs they are instantiated "
         "by Model/YamlPosLines.v (line extent of NewPositionRange, re-modelled) and by per-scalar answer bits obtained from the real library",
-        "harness: forest/File serialiser, document / wrapper / embedding generators, known-finding class predicates (hasTagKindMismatch, embeddedDupKeyOnly)",
+        "harness: forest/File serialiser, document / wrapper / embedding generators, no known-finding class predicate left",
         "yaml.v3 itself is an input (the forest), never modelled; theorems quantify over all forests, a superset of what yaml.v3 can return",
         "not modelled: rule comments, column offsets/positions (C06), Interval/QueryOffset/Limit values, PromQL AST; error messages are not compared",
     ],
@@ -28,7 +28,7 @@ SPEC = {
         "the un-shifting of lines/columns for wrapped documents (`displaced exactly by the wrapper`) is checked by the implementation-level "
         "oracle on generated wrappers, not proved: the wrapper theorem is stated on the coordinates yaml.v3 reports inside the wrapped document",
         "partial theorem guard wf_doc: document node is a document, roots are not aliases, alias fields only on alias nodes (true of every "
-        "yaml.v3 forest) and no explicit tag contradicting the node kind (known-finding class C19-tag-kind)",
+        "yaml.v3 forest) and no explicit tag contradicting the node kind (enforced by strict mode itself since b22de24 + 4a0d172)",
     ],
 }
 
@@ -39,9 +39,9 @@ def run(ctx):
 MANIFEST = {
     "text": "Theorems (Coq, no axioms, generic in every external oracle) about an executable Gallina model of pint's parser over the "
             "yaml.v3 node forest: (1) relaxed = strict on every strict-valid forest satisfying a guard (same rules: kind, name, expr, "
-            "fields, line ranges, in order) - the unguarded statement is machine-refuted by a witness that also fails on the real pint "
-            "(explicit !!seq tag on a mapping; known finding C19-tag-kind); the second class found by the proof (alias used as mapping key) was "
-            "repaired in pint (3dfcdb6) and is now a regression theorem; (2) the relaxed descent terminates on every forest (fuel = height always "
+            "fields, line ranges, in order); the two classes of counterexamples to the unguarded statement that the proof attempt found (alias "
+            "used as mapping key; explicit tag contradicting the node kind) were repaired in pint (3dfcdb6, b22de24 + 4a0d172) and are now "
+            "regression theorems, the guard is kept as a sufficient condition; (2) the relaxed descent terminates on every forest (fuel = height always "
             "suffices); (3) wrapper invariance for ALL forests and all wrappers made of mapping levels, sequence levels, document/alias levels, "
             "YAML-in-YAML levels (literal block scalars pint re-parses, e.g. a ConfigMap), sibling keys/items and extra documents: the rules found "
             "in the wrapped node are exactly the rules found in the hole; the key above a rule list is irrelevant unless it is `groups`. Tie: "
@@ -51,8 +51,8 @@ MANIFEST = {
             "of mixed sequences; embedded document vs the scalar's value parsed on its own; non-literal scalars must not be looked into).",
     "note": "Coq 8.16.1 kernel+VM; no axioms; model hand-written and validated by differential execution (not verified from Go source); "
             "yaml.v3, NewPositionRange, Prometheus name/duration validators are inputs/oracles; line/column displacement of wrapped rules "
-            "checked by the oracle, not proved; guard of (1) excludes exactly the known-finding class C19-tag-kind; second open known finding "
-            "C19-embedded-dup-key-line (duplicated label key inside embedded YAML is reported without the embedding line offset).",
+            "checked by the oracle, not proved; no open known finding (C19-tag-kind and C19-embedded-dup-key-line, both found here, are fixed "
+            "upstream: any strict-valid/relaxed or wrapped/bare difference is a violation).",
     "technique": "Coq theorems (induction over forests/wrapper contexts, fuel monotonicity and totality) over a Gallina parser model + "
                  "forest-level differential correspondence + wrapper/embedded/strict-vs-relaxed implementation oracles",
 }
